@@ -299,7 +299,7 @@ func init() {
 			if tier == "thorough" {
 				return "k <= 4 entries over 10 presentations, 14 host types (+Block)"
 			}
-			return "k <= 3 entries over 10 presentations, 14 host types (+Block)"
+			return "k <= 4 entries over 6 presentations (a:iri, a:https, a:*Actor, b:iri, public, nil), 14 host types (+Block)"
 		},
 		Run: c10Run,
 	})
@@ -307,9 +307,10 @@ func init() {
 
 func c10Run(c *engine.Ctx) {
 	es := c10Entries(true)
-	bound := 3
-	if !c.Quick() {
-		bound = 4
+	bound := 4
+	if c.Quick() {
+		// quick: up to 4 entries (a removed duplicate followed by two survivors needs 4) over six presentations
+		es = []c10Entry{es[0], es[1], es[4], es[6], es[8], es[7]}
 	}
 	nonNil := []int{}
 	for i, e := range es {
@@ -328,7 +329,11 @@ func c10Run(c *engine.Ctx) {
 		}
 		if h.block {
 			extra = nil
-			for _, x := range []int{0, 4, 6} { // a:iri, a:*Actor, b:iri
+			blockObjs := []int{0, 4, 6} // a:iri, a:*Actor, b:iri
+			if c.Quick() {
+				blockObjs = []int{0, 2, 3}
+			}
+			for _, x := range blockObjs {
 				extra = append(extra, c10Assign{actor: -1, object: x})
 			}
 			b = bound - 1
@@ -357,7 +362,10 @@ func c10Run(c *engine.Ctx) {
 		}
 	}
 	// ItemCollection.Recipients over two member objects with at most 2 entries each (to / cc / bcc only)
-	small := []int{0, 1, 4, 5, 6}
+	small := []int{0, 1, 2, 3}
+	if !c.Quick() {
+		small = []int{0, 1, 4, 5, 6}
+	}
 	type mem struct{ to, cc, bcc []int }
 	var mems []mem
 	for _, x := range small {
